@@ -255,6 +255,55 @@ def stream_wrapper(ctx: Ctx, part: Partial):
     return out
 
 
+def bindings(ctx: Ctx, part: Partial):
+    """After patch_pypdf_fallback_aes() every name pypdf resolves its AES primitives through - in the fallback module, in the provider package
+    and in pypdf._encryption - must be the primitive of that name (checked against the reference cipher, not against each other)."""
+    import hashlib
+    m = _mod()
+    out = []
+    if not m.patch_pypdf_fallback_aes():
+        part.notes.append("pypdf is not on its fallback provider: binding clause not exercised")
+        return out
+    import pypdf._crypt_providers as providers
+    import pypdf._crypt_providers._fallback as fb
+    import pypdf._encryption as enc
+    ref = {"aes_ecb_encrypt": lambda k, iv, d: refaes.ecb_encrypt(k, d), "aes_ecb_decrypt": lambda k, iv, d: refaes.ecb_decrypt(k, d),
+           "aes_cbc_encrypt": lambda k, iv, d: refaes.cbc_encrypt(k, iv, d), "aes_cbc_decrypt": lambda k, iv, d: refaes.cbc_decrypt(k, iv, d)}
+    for nsname, ns in (("pypdf._crypt_providers._fallback", fb), ("pypdf._crypt_providers", providers), ("pypdf._encryption", enc)):
+        for fname, rf in ref.items():
+            fn = getattr(ns, fname, None)
+            if fn is None:
+                continue      # this pypdf version does not export the name there
+            for klen in (16, 24, 32):
+                for nblocks in (1, 2, 5):
+                    key = hashlib.sha256(f"{ctx.seed}-{nsname}-{klen}".encode()).digest()[:klen]
+                    iv = hashlib.md5(f"{ctx.seed}-{fname}-{nblocks}".encode()).digest()
+                    data = hashlib.shake_128(f"{ctx.seed}-{fname}-{klen}-{nblocks}".encode()).digest(16 * nblocks)
+                    part.case(f"binding-{nsname}-{fname}-{klen}-{nblocks}", True, **{"binding": nsname})
+                    try:
+                        got = fn(key, data) if "ecb" in fname else fn(key, iv, data)
+                    except Exception as e:  # noqa
+                        got = f"{type(e).__name__}: {e}"
+                    if got != rf(key, iv, data):
+                        out.append(_viol("binding", f"{nsname}.{fname} (key {klen * 8} bit, {nblocks} block(s)) does not compute {fname}", {"op": "binding", "ns": nsname, "fn": fname, "klen": klen, "nblocks": nblocks}))
+                        break
+                else:
+                    continue
+                break
+    # the password check of AES-256 documents goes through pypdf's own bindings (ECB decrypt of /Perms, CBC of the key envelopes)
+    try:
+        from pypdf._encryption import AlgV5
+        key = hashlib.sha256(f"{ctx.seed}-perms".encode()).digest()
+        for p in (0xFFFFFFFC, 0xFFFFF0C0, 0x7FFFF0C4):      # /P as the unsigned 32-bit value pypdf works with
+            perms = AlgV5.compute_Perms_value(key, p, True)
+            part.case(f"binding-perms-{p}", True, **{"binding": "AlgV5"})
+            if not AlgV5.verify_perms(key, perms, p, True):
+                out.append(_viol("binding", f"AlgV5.verify_perms rejects the /Perms value AlgV5.compute_Perms_value produced for P={p}", {"op": "binding-perms", "p": p}))
+    except ImportError:
+        pass
+    return out
+
+
 def _guard(name, fn, *a):
     """The code under test raising inside a deterministic sub-check is a failure of that sub-check, not a harness error."""
     import traceback
@@ -273,6 +322,7 @@ def run(ctx: Ctx) -> Partial:
     part.violations += _guard("kat", kats, part)
     part.violations += _guard("bad-length", bad_lengths, part)
     part.violations += _guard("stream", stream_wrapper, ctx, part)
+    part.violations += _guard("binding", bindings, ctx, part)
     part.merge(shard_map(ctx, "vf.props.c20", "random_shard", ctx.n(8, 16)))
     return part
 
@@ -281,4 +331,4 @@ def replay(ctx: Ctx, payload: dict):
     part = Partial()
     if "seq" in payload:
         return eval_sequence(payload["seq"])
-    return tables(part) + kats(part) + bad_lengths(part) + stream_wrapper(ctx, part)
+    return tables(part) + kats(part) + bad_lengths(part) + stream_wrapper(ctx, part) + bindings(ctx, part)
